@@ -6,6 +6,7 @@ import BronVerif.Lemmas.PolyLagrange
 import BronVerif.Lemmas.PolyMatrix
 import BronVerif.Lemmas.PolyBirkhoff
 import BronVerif.Lemmas.PolyDeriv
+import BronVerif.Lemmas.PolyBirkhoffExp
 import BronVerif.Lemmas.GaussJordanDet
 import BronVerif.Props.C20
 import Mathlib.Tactic.NormNum.Prime
@@ -24,7 +25,7 @@ arbitrary `Nodup` lists: unsorted, large, including or excluding `0`.
 namespace BronVerif.Props.C20Poly
 open BronVerif BronVerif.LinAlg BronVerif.Poly Polynomial
 open BronVerif.Lemmas.PolyList BronVerif.Lemmas.PolyLagrange BronVerif.Lemmas.PolyMatrix
-open BronVerif.Lemmas.PolyBirkhoff BronVerif.Lemmas.PolyDeriv
+open BronVerif.Lemmas.PolyBirkhoff BronVerif.Lemmas.PolyDeriv BronVerif.Lemmas.PolyBirkhoffExp
 open scoped BigOperators
 
 section Scalar
@@ -36,6 +37,26 @@ theorem eval_eq (cs : List F) (x : F) :
   eval_eq_toPoly cs x
 
 example : Poly.eval ([1, 2, 3] : List ℚ) 2 = 17 := by norm_num [Poly.eval]
+
+/-- **evaluation is linear** (`Polynomial.Add`): `(a + b)(x) = a(x) + b(x)` for coefficient lists of
+any two lengths -/
+theorem eval_add (a b : List F) (x : F) :
+    Poly.eval (Poly.add a b) x = Poly.eval a x + Poly.eval b x := by
+  simp only [eval_eq_toPoly, toPoly_add, Polynomial.eval_add]
+
+/-- (`Polynomial.ScalarMul` / `ScalarOp`): `(a · s)(x) = a(x) · s` -/
+theorem eval_smul (a : List F) (s x : F) : Poly.eval (Poly.smul a s) x = Poly.eval a x * s := by
+  simp only [eval_eq_toPoly, toPoly_smul, Polynomial.eval_mul, Polynomial.eval_C]
+
+/-- evaluation is multiplicative (`Polynomial.Mul`, schoolbook product) -/
+theorem eval_mulPoly (a b : List F) (x : F) :
+    Poly.eval (Poly.mulPoly a b) x = Poly.eval a x * Poly.eval b x := by
+  simp only [eval_eq_toPoly, toPoly_mulPoly, Polynomial.eval_mul]
+
+example : Poly.eval (Poly.add ([1, 2, 3] : List ℚ) [5, 1]) 2 = 17 + 7 := by
+  rw [eval_add]; norm_num [Poly.eval]
+example : Poly.mulPoly ([1, 2] : List ℚ) [3, 0, 1] = [3, 6, 1, 2] := by
+  norm_num [Poly.mulPoly, Poly.add]
 
 variable [DecidableEq F]
 
@@ -103,6 +124,34 @@ theorem basisAt_sum_one (xs : List F) (x : F) (hnd : xs.Nodup) (hne : xs ≠ [])
 example : ∃ b, basisAt ([3, 0, 5] : List ℚ) 7 = some b ∧ b.sum = 1 := by
   refine ⟨_, basisAt_eq_basis (by decide) 7, ?_⟩
   exact basisAt_sum_one _ 7 (by decide) (by simp) _ (basisAt_eq_basis (by decide) 7)
+
+/-- **`Polynomial.Derivative` is the formal derivative**: the returned coefficient list (after the Go
+code's trimming to the degree, `[0]` for constants) denotes Mathlib's `derivative` of the input -/
+theorem derivative_eval (cs : List F) (x : F) :
+    Poly.eval (Poly.deriv cs) x
+      = (derivative (∑ i ∈ Finset.range cs.length, C (cs.getD i 0) * X ^ i : F[X])).eval x := by
+  rw [eval_eq_toPoly, toPoly_deriv]; rfl
+
+/-- iterated: `Derivative` applied `j` times is the `j`-th formal derivative -/
+theorem iterDeriv_eval (j : ℕ) (cs : List F) (x : F) :
+    Poly.eval (iterDeriv j cs) x
+      = (derivative^[j] (∑ i ∈ Finset.range cs.length, C (cs.getD i 0) * X ^ i : F[X])).eval x := by
+  rw [eval_eq_toPoly, toPoly_iterDeriv]; rfl
+
+/-- the derivative is linear and obeys the product rule on coefficient lists (through `toPoly`) -/
+theorem derivative_add_mul (a b : List F) (x : F) :
+    Poly.eval (Poly.deriv (Poly.add a b)) x = Poly.eval (Poly.deriv a) x + Poly.eval (Poly.deriv b) x ∧
+    Poly.eval (Poly.deriv (Poly.mulPoly a b)) x
+      = Poly.eval (Poly.deriv a) x * Poly.eval b x + Poly.eval a x * Poly.eval (Poly.deriv b) x := by
+  simp only [eval_eq_toPoly, toPoly_deriv, toPoly_add, toPoly_mulPoly, derivative_add, derivative_mul,
+    Polynomial.eval_add, Polynomial.eval_mul, and_self]
+
+example : Poly.deriv ([5, 0, 1, 0] : List ℚ) = [0, 2] := by
+  simp [Poly.deriv, trim, derivCoeffs, Poly.nsmul, List.zipIdx]; norm_num
+
+/-- **`internal.Phi(t, x, j)`** is `(d/dx)^j Xᵗ` at `x` (in particular `0` for `j > t`) -/
+theorem phi_eq_iterate_derivative (t : ℕ) (x : F) (j : ℕ) :
+    phi t x j = (derivative^[j] (X ^ t : F[X])).eval x := phi_eq t x j
 
 omit [DecidableEq F] in
 /-- Vandermonde: a solution `c` of the model's Vandermonde system `V(xs) · c = ys` (the system
@@ -462,6 +511,91 @@ example : interpolateExpAt ([3, 0, 5] : List ℚ) (([3, 0, 5] : List ℚ).map fu
     = .ok ((X ^ 2 + C 5 : ℚ[X]).eval 7 • (2 : ℚ)) :=
   lagrange_exponent_recovers _ _ _ _ (by decide)
     (lt_of_le_of_lt (degree_add_le _ _) (by simp; norm_num))
+
+omit [DecidableEq F] in
+/-- **`ModuleValuedPolynomial.Eval` commutes with `LiftPolynomial`**: `(f • g)(x) = f(x) • g` -/
+theorem evalG_lift (cs : List F) (g : G) (x : F) :
+    evalG (liftPoly cs g) x = Poly.eval cs x • g := evalG_liftPoly cs g x
+
+omit [DecidableEq F] in
+/-- **`ModuleValuedPolynomial.Derivative` commutes with `LiftPolynomial`**: it is the lift of the
+coefficient-wise derivative, hence evaluates to `f'(x) • g` -/
+theorem derivG_lift (cs : List F) (g : G) (x : F) :
+    derivG (liftPoly cs g) = liftPoly (if cs.length ≤ 1 then [0] else derivCoeffs cs) g ∧
+    evalG (derivG (liftPoly cs g)) x
+      = (derivative (∑ i ∈ Finset.range cs.length, C (cs.getD i 0) * X ^ i : F[X])).eval x • g := by
+  refine ⟨derivG_liftPoly cs g, ?_⟩
+  rw [derivG_liftPoly, evalG_liftPoly, eval_eq_toPoly]
+  congr 2
+  split
+  · rename_i h
+    rw [toPoly_singleton, map_zero]
+    exact (toPoly_of_length_le_one cs h).symm
+  · exact toPoly_derivCoeffs cs
+
+example : evalG (liftPoly ([5, 0, 1] : List ℚ) (2 : ℚ)) (7 : ℚ) = Poly.eval ([5, 0, 1] : List ℚ) 7 • (2 : ℚ) :=
+  evalG_lift (F := ℚ) (G := ℚ) [5, 0, 1] 2 7
+
+/-- **Birkhoff in the exponent commutes with lifting** (sorted nodes): the cofactor expansion evaluated
+on lifted values `yᵣ • g` returns the lift of Cramer's rule on the scalars `yᵣ`, and fails exactly
+when the scalar routine fails (Laplace expansion `Matrix.det_succ_column` for the model's `det`). -/
+theorem birkhoffExpSorted_lift (xs : List F) (js : List ℕ) (ys : List F) (g : G)
+    (hj : js.length = xs.length) (hy : ys.length = xs.length) :
+    birkhoffExpSorted LinAlg.det xs js (ys.map fun y => y • g)
+      = (birkhoffSorted LinAlg.det xs js ys).map fun c => c.map fun v => v • g := by
+  unfold birkhoffExpSorted birkhoffSorted
+  simp only
+  split
+  · rfl
+  · show Except.ok _ = Except.ok _
+    congr 1
+    show List.map _ _ = List.map _ (List.map _ _)
+    rw [List.map_map]
+    apply List.map_congr_left
+    intro c hc
+    have hc : c < xs.length := List.mem_range.mp hc
+    simp only [Function.comp, gdot_map_smul, smul_smul]
+    congr 1
+    have hBl : (birkhoffMatrix xs js xs.length).length = xs.length := by simp [birkhoffMatrix, hj]
+    have hBW : ∀ row ∈ birkhoffMatrix xs js xs.length, row.length = xs.length := by
+      intro row h
+      unfold birkhoffMatrix at h
+      obtain ⟨i, hi, rfl⟩ := List.mem_iff_getElem.mp h
+      rw [List.getElem_zipWith]; simp
+    rw [det_setColumn_eq_cofactor_sum LinAlg.det (fun n m hl hW => det_computes_matrix_det n m hl hW)
+      _ ys xs.length c hBl hBW hy hc, mul_comm]
+
+/-- the public entry point: `birkhoff.InterpolateInExponent` on lifted values is the lift of
+`birkhoff.Interpolate` (same sorting, same refusals) -/
+theorem birkhoffExpInterpolate_lift (key : F → ℕ) (xs : List F) (js : List ℕ) (ys : List F) (g : G) :
+    birkhoffExpInterpolate LinAlg.det key xs js (ys.map fun y => y • g)
+      = (birkhoffInterpolate LinAlg.det key xs js ys).map fun c => c.map fun v => v • g := by
+  unfold birkhoffExpInterpolate birkhoffInterpolate
+  simp only [List.length_map]
+  split
+  · rfl
+  split
+  · rfl
+  set f : F × ℕ × F → F × ℕ × G := Prod.map id (Prod.map id fun y => y • g) with hf
+  have hzip : List.zip xs (List.zip js (ys.map fun y => y • g)) = (List.zip xs (List.zip js ys)).map f := by
+    rw [hf, List.zip_map_right, List.zip_map_right]
+  have hsort : sortNodes key (List.zip xs (List.zip js (ys.map fun y => y • g)))
+      = (sortNodes key (List.zip xs (List.zip js ys))).map f := by
+    rw [hzip]; unfold sortNodes
+    exact (List.map_mergeSort
+      (r := fun a b : F × ℕ × F => decide (key a.1 < key b.1 ∨ (key a.1 = key b.1 ∧ a.2.1 ≤ b.2.1)))
+      (s := fun a b : F × ℕ × G => decide (key a.1 < key b.1 ∨ (key a.1 = key b.1 ∧ a.2.1 ≤ b.2.1)))
+      (f := f) (fun a _ b _ => rfl)).symm
+  simp only [hsort, List.map_map]
+  have h1 : ((fun t : F × ℕ × G => t.1) ∘ f) = fun t => t.1 := rfl
+  have h2 : ((fun t : F × ℕ × G => t.2.1) ∘ f) = fun t => t.2.1 := rfl
+  have h3 : ((fun t : F × ℕ × G => t.2.2) ∘ f) = (fun y => y • g) ∘ fun t => t.2.2 := rfl
+  rw [h1, h2, h3, ← List.map_map]
+  exact birkhoffExpSorted_lift _ _ _ g (by simp) (by simp)
+
+example : birkhoffExpSorted LinAlg.det ([2, 5] : List ℚ) [0, 1] (([13, 3] : List ℚ).map fun y => y • (2 : ℚ))
+    = (birkhoffSorted LinAlg.det ([2, 5] : List ℚ) [0, 1] [13, 3]).map fun c => c.map fun v => v • (2 : ℚ) :=
+  birkhoffExpSorted_lift _ _ _ _ rfl rfl
 
 omit [DecidableEq F] in
 /-- `mat.LeftAction` commutes with `mat.Lift`: `A · (R • g) = (A · R) • g` (any shapes; short rows
